@@ -19,6 +19,9 @@ ND = "sempler.normal_distribution.NormalDistribution."
 
 
 def run(prog, rep, tier):
+    # the law a sample follows is the law of the distribution as constructed: the constructor keeps the given moments, as its own copies
+    from .C05 import ctor_rules
+    ctor_rules(rep, prog)
     f = need(prog, "sempler.lganm.LGANM.sample")
     S = Sym(prog)
     run_function(S, f)
